@@ -164,8 +164,14 @@ def C13(tier):
     for p in ps:
         for g in gs:
             obs.append(['gd_cmp_law', {'p': p, 'g': g}])
+            # the comparison law does not depend on the display setting
+            for d in sorted(set([0, max(p - 1, 0), p + 1, p + g])):
+                if d != p:
+                    obs.append(['gd_cmp_law', {'p': p, 'g': g, 'd': d}])
         for law in [l for l in laws.GUARDED_LAWS if l.startswith('g0_')]:
             obs.append([law, {'p': p}])
+            if p >= 2 and law in ('g0_cmp', 'g0_arith', 'g0_ops'):
+                obs.append([law, {'p': p, 'd': p - 2}])
     r = _leaf(obs, GUARD_FUNCS + FIXED_FUNCS, require=list(laws.GUARDED_LAWS))
     r['bounds'] = dict(precisions=ps, guards=gs, operands='unbounded')
     quick = tier != 'thorough'
